@@ -798,7 +798,7 @@ impl Prop for C18 {
             (RefVal::Defined { si, .. }, Res::Ok { value, unit, .. }) => match units::si_of(value, unit, false) {
                 Ok(g) if &g == si => {}
                 Ok(g) => return fw::fail("value", format!("{q}: expected {} got {}", si.short(), g.short())),
-                Err(e) => return fw::fail("unit-table", e),
+                Err(e) => return crate::units::table_verdict(e),
             },
             (RefVal::Defined { si, .. }, Res::Err { msg, .. }) => return fw::fail("value", format!("{q}: expected {} got error {msg}", si.short())),
             _ => unreachable!(),
